@@ -578,6 +578,7 @@ func (x *FnExec) enterLoop(fr *Frame, li *loopInfo, ps []stParent, preds []*ssa.
 	}
 	na := x.tc.Fresh("ALLOCloop", x.refSort())
 	x.addFact(x.intLe(pre.alloc, na))
+	x.allocBound(na)
 	st.alloc = na
 	var cellAllocs []ssa.Value
 	for a := range cl {
